@@ -63,6 +63,10 @@ type stubSumDB struct {
 	n404  int
 	stop  context.CancelFunc // called on the first request outside the served tree so the feeder's retry loop ends
 	paths []string
+	// flaky: "partial" / "full" - the first request for a tile of that kind is answered 503 once (a transient
+	// failure of the server); whatever the client does next must still only ask for reference paths
+	flaky  string
+	flaked int
 }
 
 func (s *stubSumDB) latest() []byte {
@@ -103,6 +107,13 @@ func (s *stubSumDB) RoundTrip(q *http.Request) (*http.Response, error) {
 		}
 		return mk(404, nil) // beyond the served tree: an over-wide or mis-addressed request
 	}
+	s.mu.Lock()
+	if s.flaked == 0 && ((s.flaky == "partial" && tile.W < 256) || (s.flaky == "full" && tile.W == 256)) {
+		s.flaked++
+		s.mu.Unlock()
+		return mk(503, []byte("try again"))
+	}
+	s.mu.Unlock()
 	s.mu.Lock()
 	b, ok := s.cache[p]
 	s.mu.Unlock()
@@ -186,6 +197,16 @@ func main() {
 	})
 	// successive growth under ONE long-lived polling feeder (state kept between cycles must not go stale)
 	run.Floor("chain_steps", 60)
+	// the server fails one tile request transiently: the retry (wherever it happens) must ask for reference paths only
+	run.Floor("pairs_with_transient_tile_failure", 24)
+	run.Units("flaky_pairs", run.Pick(64, 512), 64, func(unit int64, r *rand.Rand) {
+		to := 2 + r.Uint64N(3000)
+		if unit%2 == 1 {
+			to = 300 + r.Uint64N(70000)
+		}
+		from := 1 + r.Uint64N(to-1)
+		pairFlaky(run, unit, tree, key, from, to, true, []string{"partial", "full"}[unit%2])
+	})
 	run.Units("chains", run.Pick(24, 240), 0, func(unit int64, r *rand.Rand) { chain(run, unit, r, tree, key) })
 	if run.Thorough() {
 		big := &reftree.Tree{Seed: uint64(run.Seed) + 99, TagA: 1, TagB: 1, Fork: ^uint64(0)}
@@ -256,7 +277,18 @@ func paths(run *ev.Run) {
 }
 
 func pair(run *ev.Run, unit int64, tree *reftree.Tree, key *refnote.SignKey, from, to uint64, sample bool) {
-	stub := &stubSumDB{t: tree, key: key, size: to, cache: map[string][]byte{}}
+	pairFlaky(run, unit, tree, key, from, to, sample, "")
+}
+
+func pairFlaky(run *ev.Run, unit int64, tree *reftree.Tree, key *refnote.SignKey, from, to uint64, sample bool, flaky string) {
+	stub := &stubSumDB{t: tree, key: key, size: to, cache: map[string][]byte{}, flaky: flaky}
+	if flaky != "" {
+		defer func() {
+			if stub.flaked > 0 {
+				run.Count("pairs_with_transient_tile_failure")
+			}
+		}()
+	}
 	rt := tree.Root(from)
 	ftext := string(tlog.FormatTree(tlog.Tree{N: int64(from), Hash: tlog.Hash(rt)}))
 	w := &recWitness{latest: refnote.Assemble(ftext, key.SigLine(ftext))}
